@@ -39,6 +39,10 @@ def handle (op : String) (a : List Nat) : Option String :=
       | none => "NONE"
       | some r => showRes r (GL.inv (GL.ofNat x)).val)
   | "expu64", [x, e] => some (showRes (expU64 x e) (GL.pow (GL.ofNat x) e).val)
+  -- `exp_biguint(x, Σ limbs[i]·2^(64 i))`: limbs little-endian
+  | "expbig", x :: limbs =>
+    let e := (limbs.zipIdx).foldl (fun acc (l, i) => acc + l * 2 ^ (64 * i)) 0
+    some s!"{(GL.pow (GL.ofNat x) e).val}"
   | "exp2", [x, k] => some (showRes (expPow2 x k) (GL.pow (GL.ofNat x) (2 ^ k)).val)
   | "inv2exp", [e] => some s!"{(GL.inv (GL.pow (GL.ofNat 2) e)).val}"
   | "binv", xs => some (batchInv xs)
